@@ -32,7 +32,7 @@ RespDom == [
 IdDom == [
   fwd    |-> BOOLEAN,
   strip  |-> BOOLEAN,
-  forged |-> {"none", "canonical", "lower", "mixed", "two", "canonical+lower"},
+  forged |-> {"none", "canonical", "lower", "mixed", "two", "canonical+lower", "asserted-first", "asserted-last", "empty-first", "asserted-only"},
   auth   |-> {"none", "basic", "bearer", "two", "lower"},
   kind   |-> {"get", "post", "shim-open"},
   shim   |-> BOOLEAN,
